@@ -150,25 +150,28 @@ class PersistentMixin(Module):
         self.__save_params()
 
     def __save_params(self):
-        data = {k: v.export_value() for k, v in self.parameters.items()
-                if getattr(v, 'persistent', False)}
-        if data != self.persistentData:
-            persistentdir = self.persistentFile.parent
-            tmpfile = self.persistentFile.parent / (self.persistentFile.name + '.tmp')
-            if not persistentdir.is_dir():
-                persistentdir.mkdir(parents=True, exist_ok=True)
-            try:
-                with open(tmpfile, 'w', encoding='utf-8') as f:
-                    json.dump(data, f, indent=2)
-                    f.write('\n')
-                os.rename(tmpfile, self.persistentFile)
-                # remember the data as saved only now: a failed save is tried again
-                self.persistentData = data
-            finally:
+        # all saves of a module use the same temporary file: one at a time (updateLock is the lock the
+        # automatic save is called under, it is reentrant)
+        with self.updateLock:
+            data = {k: v.export_value() for k, v in self.parameters.items()
+                    if getattr(v, 'persistent', False)}
+            if data != self.persistentData:
+                persistentdir = self.persistentFile.parent
+                tmpfile = self.persistentFile.parent / (self.persistentFile.name + '.tmp')
+                if not persistentdir.is_dir():
+                    persistentdir.mkdir(parents=True, exist_ok=True)
                 try:
-                    os.remove(tmpfile)
-                except FileNotFoundError:
-                    pass
+                    with open(tmpfile, 'w', encoding='utf-8') as f:
+                        json.dump(data, f, indent=2)
+                        f.write('\n')
+                    os.rename(tmpfile, self.persistentFile)
+                    # remember the data as saved only now: a failed save is tried again
+                    self.persistentData = data
+                finally:
+                    try:
+                        os.remove(tmpfile)
+                    except FileNotFoundError:
+                        pass
 
     @Command()
     def factory_reset(self):
